@@ -948,11 +948,13 @@ class SD(object):
         return NotImplemented if o is None else self.v >= o.v
 
     def __eq__(self, o):
-        o = SD.co(o)
+        # exact ties of dual-number values select measure-zero shortcut paths (e.g. "scalar == 0") on
+        # which forward-mode AD of the executed branch is not the derivative of the function: excluded
+        o = self._strict(o)
         return NotImplemented if o is None else (self.v == o.v)
 
     def __ne__(self, o):
-        o = SD.co(o)
+        o = self._strict(o)
         return NotImplemented if o is None else (self.v != o.v)
 
     __hash__ = None
